@@ -93,6 +93,13 @@ def rule_fidelity(ctx, p, cfg, rid, prefix="config::runtime::", floor=30):
                             a1 = c.arg(1)
                             if rf == tgt and any(x == ("param", 2) for x in walk(a1)) and _pure(a1) and all(f.dominates(c.block, rb) for rb in f.return_blocks()):
                                 okw = True
+                # a list-valued field is only ever extended at its end by its setters (declaration order is kept)
+                fty = [x["ty"] for x in p.adts[adt]["variants"][0]["fields"] if x["name"] == tgt]
+                if fty and fty[0].startswith("alloc::vec::Vec<"):
+                    direct = [1 for b, i, st in f.assigns() if st["lhs"]["l"] == 1 and any(isinstance(e, dict) and e.get("f") == tgt and e.get("adt") == adt for e in st["lhs"]["p"])]
+                    ins = [c for c in f.calls() if c.callee in ("alloc::vec::Vec::<T, A>::insert", "alloc::vec::Vec::<T, A>::append") and _root_field(deep_strip(c.arg(0))) != tgt]
+                    frontins = [c for c in f.calls() if c.callee == "alloc::vec::Vec::<T, A>::insert"]
+                    okw = okw and not direct and not ins and not frontins
                 r.require(okw and touched == {tgt}, "setter:%s" % short, fn=f, detail="stores its argument in `%s` on every path and touches nothing else" % tgt,
                           fail_detail="%s: fields written %s, argument stored in `%s`: %s" % (short, sorted(touched), tgt, okw))
         r.floor("accessor-functions", n, floor)
